@@ -274,6 +274,17 @@ def run(rep, tier, seed):
             continue
         reqs.append((12, model_ops(names, txts, lookups)))
         metas.append((names, txts, lookups))
+    # long names over two words (a suffix of a long name that is a stored name of its own is found by following failure links
+    # more than once): names of 4 to 6 words with one to three short names, texts that spell the long names and random runs
+    for _ in range(1200 if tier == 'thorough' else 150):
+        longs = [' '.join(rng.choice('ab') for _ in range(rng.randint(4, 6))) for _ in range(rng.randint(1, 2))]
+        shorts = [' '.join(rng.choice('ab') for _ in range(rng.randint(1, 3))) for _ in range(rng.randint(1, 3))]
+        names = [(n_, i + 1) for i, n_ in enumerate(dict.fromkeys(rng.sample(longs + shorts, len(longs + shorts))))]
+        txts = list(longs) + [' '.join(rng.choice('ab') for _ in range(rng.randint(5, 9))) for _ in range(3)]
+        lookups = [longs[0], shorts[0].upper(), 'a']
+        reqs.append((12, model_ops(names, txts, lookups)))
+        metas.append((names, txts, lookups))
+        rep.count('long_two_word_name_sets')
     # letters whose case folding is not their lower-casing: storing, looking up and scanning must agree on str.lower()
     for names, txts in (
             ([('straße license', 1), ('mit', 2)], ['the straße license applies', 'STRASSE LICENSE strasse license', 'mit or STRAßE  License']),
